@@ -42,12 +42,12 @@ Example C09_nonvacuous :
   agree c = true /\ dom_of (verdict09 c) = true /\ holds_of (verdict09 c) = true.
 Proof. vm_compute. repeat split; reflexivity. Qed.
 
-(* ---- over every reachable state (Proofs/ReidxInv.v): outside D02 the recomputed index space is
+(* ---- over every reachable state (Proofs/ReidxInv.v): the recomputed index space is
    exactly the live items, each once, the emitted module lists exactly their entities in that order, every live
    item's id maps to its position, a deleted item's id has no entry (a remaining reference fails loudly), and
    index_space never hits its own length assertion *)
 Theorem C09_index_space_is_exactly_the_live_items :
-  forall m x, wf m -> okD02 x m = true ->
+  forall m x, wf m ->
   forall l mp, index_space (get_sp m x) = Ok (l, mp) ->
   space_of_model m l x = map it_fp l /\ NoDup (map it_id l) /\
   (forall it, In it l <-> In it (s_items (get_sp m x)) /\ it_del it = false) /\
